@@ -31,33 +31,33 @@ def totalA (ds : List (Nat × Nat)) : Nat := (ds.map (·.2)).sum
 theorem atTime_self (n : Node) : atTime n n.s.now = n := rfl
 theorem advance_upd (n : Node) (t d : Nat) (tp : Nat → TpDev) (sl : List Slot) (out : List Delivery) (fs rxq : List Frame) :
     advance ((atTime n t).upd tp sl out fs rxq) d = (atTime n (t + d)).upd tp sl out fs rxq := rfl
-theorem Lead.atTime {n : Node} {d : Dev} (h : Lead n d) (t : Nat) : Lead (atTime n t) d := ⟨h.dev0, h.others, h.claims⟩
+theorem Lead.atTime {n : Node} {i : Nat} {d : Dev} (h : Lead n i d) (t : Nat) : Lead (atTime n t) i d := ⟨h.dev0, h.first, h.others, h.claims⟩
 theorem atTime_quiet {n : Node} {i : Nat} (t : Nat) (h : Quiet n.s i) : Quiet (atTime n t).s i :=
   ⟨h.dev, h.notListen, h.active, h.ringEmpty, h.script, h.dflt, h.notFpCM, h.notFpDT⟩
-theorem txTp_atTime (n : Node) (t : Nat) (m : Msg) (seq t0 tmo : Nat) : txTp (atTime n t) m seq t0 tmo = txTp n m seq t0 tmo := rfl
-theorem doneTp_atTime (n : Node) (t : Nat) (m : Msg) (seq : Nat) : doneTp (atTime n t) m seq = doneTp n m seq := rfl
+theorem txTp_atTime (i : Nat) (n : Node) (t : Nat) (m : Msg) (seq t0 tmo : Nat) : txTp i (atTime n t) m seq t0 tmo = txTp i n m seq t0 tmo := rfl
+theorem doneTp_atTime (i : Nat) (n : Node) (t : Nat) (m : Msg) (seq : Nat) : doneTp i (atTime n t) m seq = doneTp i n m seq := rfl
 
 theorem wire_upd (x y : Node) (tp : Nat → TpDev) (sl : List Slot) (out : List Delivery) (fs rxq : List Frame)
     (tp' : Nat → TpDev) (sl' : List Slot) (out' : List Delivery) (fs' rxq' : List Frame) :
     wire (x.upd tp sl out fs rxq) (y.upd tp' sl' out' fs' rxq') = (x.upd tp sl out [] rxq, y.upd tp' sl' out' fs' (rxq' ++ fs)) := rfl
 
 section
-variable (a b : Node) (da db : Dev) (m : Msg) (j : Nat) (S' : List Slot) (a0 : Slot)
+variable (a b : Node) (ia ib : Nat) (da db : Dev) (m : Msg) (j : Nat) (S' : List Slot) (a0 : Slot)
 
 /-- the sender after the CTS for packets from `k` on was answered at time `tA` -/
 def snd (tA k : Nat) : Node :=
-  (atTime a tA).upd (txTp a m (k + min (tpCtsPackets (tpPacketCount m.len)) (tpPacketCount m.len - k)) tA 100) a.slots a.out
+  (atTime a tA).upd (txTp ia a m (k + min (tpCtsPackets (tpPacketCount m.len)) (tpPacketCount m.len - k)) tA 100) a.slots a.out
     ((List.range (min (tpCtsPackets (tpPacketCount m.len)) (tpPacketCount m.len - k))).map fun x => dtFrame da.source m (k + x)) []
 
 /-- hypotheses of the exchange (`m` is the pending message, i.e. with the sender's address as source) -/
 structure LinkHyp : Prop where
-  devA : Lead a da
-  devB : Lead b db
-  qa : Quiet a.s 0
-  qb : Quiet b.s 0
-  bIdle : (b.tp 0).hasPending = false
-  aInfo : InfoIdle a 0
-  bInfo : InfoIdle b 0
+  devA : Lead a ia da
+  devB : Lead b ib db
+  qa : Quiet a.s ia
+  qb : Quiet b.s ib
+  bIdle : (b.tp ib).hasPending = false
+  aInfo : InfoIdle a ia
+  bInfo : InfoIdle b ib
   mdst : m.dst = db.source
   len9 : 9 ≤ m.len
   len223 : m.len ≤ 223
@@ -69,32 +69,32 @@ structure LinkHyp : Prop where
   hj : findIdx (slotHit m.pgn da.source db.source true) S' = some j
   ha0 : S'[j]? = some a0
 
-variable {a b da db m j S' a0}
+variable {a b ia ib da db m j S' a0}
 
-theorem LinkHyp.srcA (h : LinkHyp a b da db m j S' a0) : da.source ≤ 251 := by
+theorem LinkHyp.srcA (h : LinkHyp a b ia ib da db m j S' a0) : da.source ≤ 251 := by
   exact h.devA.src h.qa
 
-theorem LinkHyp.dstB (h : LinkHyp a b da db m j S' a0) : db.source ≤ 251 := by
+theorem LinkHyp.dstB (h : LinkHyp a b ia ib da db m j S' a0) : db.source ≤ 251 := by
   exact h.devB.src h.qb
 
-theorem LinkHyp.none (h : LinkHyp a b da db m j S' a0) : findIdx (sessOf da.source db.source) S' = none := by
+theorem LinkHyp.none (h : LinkHyp a b ia ib da db m j S' a0) : findIdx (sessOf da.source db.source) S' = none := by
   rw [h.hS]
   apply findIdx_none_of_all
   intro x hx
   obtain ⟨c, _, hc⟩ := List.mem_map.1 hx
   rw [← hc]; exact sessOf_freeSess _ _ c
 
-theorem LinkHyp.jlt (h : LinkHyp a b da db m j S' a0) : j < S'.length := findIdx_lt _ _ _ h.hj
+theorem LinkHyp.jlt (h : LinkHyp a b ia ib da db m j S' a0) : j < S'.length := findIdx_lt _ _ _ h.hj
 
-theorem LinkHyp.at (h : LinkHyp a b da db m j S' a0) (tA tB : Nat) : LinkHyp (atTime a tA) (atTime b tB) da db m j S' a0 :=
+theorem LinkHyp.at (h : LinkHyp a b ia ib da db m j S' a0) (tA tB : Nat) : LinkHyp (atTime a tA) (atTime b tB) ia ib da db m j S' a0 :=
   ⟨h.devA.atTime tA, h.devB.atTime tB, atTime_quiet tA h.qa, atTime_quiet tB h.qb, h.bIdle, h.aInfo, h.bInfo, h.mdst, h.len9, h.len223, h.hdata, h.pgn24, h.pgn0,
    h.known, h.hS, h.hj, h.ha0⟩
 
 /-- first round: RTS → CTS(1) → first window (A polls less than 50 ms after `SendMsg`) -/
-theorem round_first (h : LinkHyp a b da db m j S' a0) (tA tB dB dA : Nat) (hdA : dA < 50) (h64 : tA + dA + 100 < M64) :
-    round dB dA ((atTime a tA).upd (txTp a m 0 tA 50) a.slots a.out [cmFrame da.source m.dst (announceBytes 16 m)] [],
+theorem round_first (h : LinkHyp a b ia ib da db m j S' a0) (tA tB dB dA : Nat) (hdA : dA < 50) (h64 : tA + dA + 100 < M64) :
+    round dB dA ((atTime a tA).upd (txTp ia a m 0 tA 50) a.slots a.out [cmFrame da.source m.dst (announceBytes 16 m)] [],
                  (atTime b tB).upd b.tp b.slots [] [] []) =
-      (snd a da m (tA + dA) 0, rcv (atTime b (tB + dB)) db m da.source j S' a0 (millis32 (tB + dB)) [] 0 [] []) := by
+      (snd a ia da m (tA + dA) 0, rcv (atTime b (tB + dB)) db m da.source j S' a0 (millis32 (tB + dB)) [] 0 [] []) := by
   have hsa := h.srcA
   have hsb := h.dstB
   have h' := h.at (tA + dA) (tB + dB)
@@ -115,10 +115,10 @@ theorem round_first (h : LinkHyp a b da db m j S' a0) (tA tB dB dA : Nat) (hdA :
   rfl
 
 /-- a middle round: a full window that is not the last one → next CTS → next window (A polls less than 100 ms after its last poll) -/
-theorem round_mid (h : LinkHyp a b da db m j S' a0) (k tA tB mt dB dA : Nat) (hkc : k % tpCtsPackets (tpPacketCount m.len) = 0)
+theorem round_mid (h : LinkHyp a b ia ib da db m j S' a0) (k tA tB mt dB dA : Nat) (hkc : k % tpCtsPackets (tpPacketCount m.len) = 0)
     (hmore : k + tpCtsPackets (tpPacketCount m.len) < tpPacketCount m.len) (hdA : dA < 100) (h64 : tA + dA + 100 < M64) :
-    round dB dA (snd a da m tA k, rcv (atTime b tB) db m da.source j S' a0 mt [] k [] []) =
-      (snd a da m (tA + dA) (k + tpCtsPackets (tpPacketCount m.len)),
+    round dB dA (snd a ia da m tA k, rcv (atTime b tB) db m da.source j S' a0 mt [] k [] []) =
+      (snd a ia da m (tA + dA) (k + tpCtsPackets (tpPacketCount m.len)),
        rcv (atTime b (tB + dB)) db m da.source j S' a0 (millis32 (tB + dB)) [] (k + tpCtsPackets (tpPacketCount m.len)) [] []) := by
   have hsa := h.srcA
   have hsb := h.dstB
@@ -143,11 +143,11 @@ theorem round_mid (h : LinkHyp a b da db m j S' a0) (k tA tB mt dB dA : Nat) (hk
   rfl
 
 /-- the last round: last window → EndOfMsgACK and delivery → the sender ends the transfer -/
-theorem round_last (h : LinkHyp a b da db m j S' a0) (k tA tB mt dB dA : Nat) (hkc : k % tpCtsPackets (tpPacketCount m.len) = 0)
+theorem round_last (h : LinkHyp a b ia ib da db m j S' a0) (k tA tB mt dB dA : Nat) (hkc : k % tpCtsPackets (tpPacketCount m.len) = 0)
     (hk : k < tpPacketCount m.len) (hlast : tpPacketCount m.len ≤ k + tpCtsPackets (tpPacketCount m.len))
     (hdA : dA < 100) (h64 : tA + dA + 100 < M64) :
-    ∃ S'', round dB dA (snd a da m tA k, rcv (atTime b tB) db m da.source j S' a0 mt [] k [] []) =
-      ((atTime a (tA + dA)).upd (doneTp a m (tpPacketCount m.len)) a.slots a.out [] [],
+    ∃ S'', round dB dA (snd a ia da m tA k, rcv (atTime b tB) db m da.source j S' a0 mt [] k [] []) =
+      ((atTime a (tA + dA)).upd (doneTp ia a m (tpPacketCount m.len)) a.slots a.out [] [],
        (atTime b (tB + dB)).upd b.tp S'' [delivered m da.source db.source] [] []) := by
   have hsa := h.srcA
   have hsb := h.dstB
@@ -175,12 +175,12 @@ theorem round_last (h : LinkHyp a b da db m j S' a0) (k tA tB mt dB dA : Nat) (h
   rw [hc]
 
 /-- from any window start the transfer completes within the remaining number of windows, whatever the delays below 100 ms -/
-theorem rounds_complete (h : LinkHyp a b da db m j S' a0) : ∀ (fuel k tA tB mt : Nat) (ds : List (Nat × Nat)),
+theorem rounds_complete (h : LinkHyp a b ia ib da db m j S' a0) : ∀ (fuel k tA tB mt : Nat) (ds : List (Nat × Nat)),
     k % tpCtsPackets (tpPacketCount m.len) = 0 → k < tpPacketCount m.len →
     tpPacketCount m.len - k ≤ fuel * tpCtsPackets (tpPacketCount m.len) → fuel ≤ ds.length → (∀ p ∈ ds, p.2 < 100) →
     tA + totalA ds + 100 < M64 →
-    ∃ r S'' tA' tB', r ≤ fuel ∧ rounds (ds.take r) (snd a da m tA k, rcv (atTime b tB) db m da.source j S' a0 mt [] k [] []) =
-      ((atTime a tA').upd (doneTp a m (tpPacketCount m.len)) a.slots a.out [] [],
+    ∃ r S'' tA' tB', r ≤ fuel ∧ rounds (ds.take r) (snd a ia da m tA k, rcv (atTime b tB) db m da.source j S' a0 mt [] k [] []) =
+      ((atTime a tA').upd (doneTp ia a m (tpPacketCount m.len)) a.slots a.out [] [],
        (atTime b tB').upd b.tp S'' [delivered m da.source db.source] [] [])
   | 0, k, _, _, _, _, _, hk, hf, _, _, _ => by omega
   | fuel+1, k, tA, tB, mt, [], _, _, _, hl, _, _ => by simp at hl
